@@ -224,7 +224,7 @@ def build(shapes, seed=0, mode="binds", formname="data", homonyms=False):
                 row["parameters"] = params
                 attrs.append(["type", btype, "lit"])
             # a trigger cell moves the calculation into a setvalue action; every other logic cell stays on the bind
-            if f.visible and shape in ("text", "typed", "calc") and rnd.random() < 0.2 and name not in dups:   # (homonymous trigger targets: C10's subject)
+            if f.visible and shape in ("text", "typed", "calc") and rnd.random() < 0.2:
                 tname, tpath = rnd.choice(f.visible)
                 row["trigger"] = "${" + tname + "}"
                 if f.hdr("calculate") not in row:
